@@ -112,7 +112,7 @@ func isConstBool(v ssa.Value, want bool) bool {
 // ---------- PAIR-1 ----------
 
 func runPair1(m *Model, r *RuleResult) {
-	rev := m.SSAFunc("internal/graph", "(*Edge).Reverse")
+	rev := m.anchorReverse()
 	n := 0
 	for _, f := range m.Src {
 		if shortPkg(pkgPathOf(f)) != "internal/phase1" {
@@ -1428,6 +1428,36 @@ func flagGuardedFixpoint(f *ssa.Function) bool {
 	return true
 }
 
+// subSliceRecursion: every recursive call of f passes, for one slice parameter p of f, a slice expression p[lo:hi] with at
+// least one bound given.
+func subSliceRecursion(f *ssa.Function) bool {
+	self := staticCalls(f, func(c *ssa.Function) bool { return c == f })
+	if len(self) == 0 {
+		return false
+	}
+	for i, p := range f.Params {
+		if _, ok := p.Type().Underlying().(*types.Slice); !ok {
+			continue
+		}
+		all := true
+		for _, s := range self {
+			args := s.Common().Args
+			if i >= len(args) {
+				all = false
+				break
+			}
+			sl, ok := args[i].(*ssa.Slice)
+			if !ok || sl.X != ssa.Value(p) || (sl.Low == nil && sl.High == nil) {
+				all = false
+			}
+		}
+		if all {
+			return true
+		}
+	}
+	return false
+}
+
 func runRec1(m *Model, r *RuleResult) {
 	// nesting: literal -> top function
 	top := func(f *ssa.Function) *ssa.Function {
@@ -1574,6 +1604,9 @@ func runRec1(m *Model, r *RuleResult) {
 		case flagGuardedFixpoint(t) && !ctl:
 			r.add(Obligation{Key: key, Pos: pos, Desc: "fix-point on a flag: the only recursive calls are taken when a boolean flag was set during this run of the body; each repetition strictly increases a coordinate (PROG-1); an upper bound on the coordinates, hence convergence, is not decided statically", Verdict: "holds"})
 			r.stat("flag_fixpoints", 1)
+		case subSliceRecursion(t) && !ctl:
+			r.add(Obligation{Key: key, Pos: pos, Desc: "divide and conquer: every recursive call receives a proper sub-slice expression (p[:i] / p[j:]) of the function's own slice parameter; AFF-9 decides that the two halves are path[:k+1] and path[k:]; that 0 < k < len-1 (strictly shorter halves) is a run-time fact of the error maximum and is not decided", Verdict: "holds"})
+			r.stat("subslice_recursions", 1)
 		case rec1Reviewed(t) != "" && !ctl:
 			r.add(Obligation{Key: key, Pos: pos, Desc: "recursion without a mark-and-test guard; reviewed: " + rec1Reviewed(t), Verdict: "holds"})
 			r.stat("table_entries_used", 1)
